@@ -446,6 +446,30 @@ pub fn seq_strategy(g: SeqGen) -> BoxedStrategy<SeqCase> {
         .boxed()
 }
 
+/// structure-aware decoding of fuzzer bytes into a case of `seq_strategy(g)`'s domain
+pub fn decode_seq(u: &mut arbitrary::Unstructured<'_>, g: &SeqGen) -> Option<SeqCase> {
+    let b = |u: &mut arbitrary::Unstructured<'_>| -> u8 { u.arbitrary::<u8>().unwrap_or(0) };
+    let kind = g.kinds[b(u) as usize % g.kinds.len()];
+    let (buffer, max_streams) = g.configs[b(u) as usize % g.configs.len()];
+    let origin = if g.origins { let x = b(u); if x < 100 { 0 } else { u32::MAX - (x as u32 % 64) } } else { 0 };
+    let total: u32 = g.weights.iter().sum();
+    let len = 1 + (u.arbitrary::<u16>().unwrap_or(0) as usize % g.max_len.max(1));
+    let mut ops = vec![SOp::Create];
+    for _ in 0..len {
+        if u.is_empty() { break; }
+        let mut pick = b(u) as u32 % total.max(1);
+        let mut which = 0;
+        for (i, w) in g.weights.iter().enumerate() { if pick < *w { which = i; break; } pick -= *w; }
+        let a = b(u) % 8;
+        ops.push(match which {
+            0 => SOp::Create, 1 => SOp::DropStream(a),
+            2 => SOp::Send(match a { 0 | 1 | 2 => Entry::Send, 3 | 4 => Entry::SendWith, 5 => Entry::SendAsync(0), 6 => Entry::SendAsync(2), _ => Entry::Derived }),
+            3 => SOp::Recv(a), 4 => SOp::RecvAll(a), 5 => SOp::Release(a), 6 => SOp::ReleaseAll, 7 => SOp::Reserve, 8 => SOp::SendReserved(a), 9 => SOp::CancelReserved(a), 10 => SOp::CancelAll, _ => SOp::Len,
+        });
+    }
+    Some(SeqCase { kind, buffer, max_streams, origin, ops })
+}
+
 fn fp_of(case: &SeqCase) -> u64 {
     use std::hash::{Hash, Hasher};
     let mut h = std::collections::hash_map::DefaultHasher::new();
@@ -481,6 +505,7 @@ fn base_report(case: &SeqCase, o: SeqOutcome, nontrivial: bool, mut classes: Vec
 }
 
 static RESERVE_KINDS: [ChanKind; 5] = [ChanKind::UniMoveAtomic, ChanKind::UniZcAtomic, ChanKind::UniZcFullSync, ChanKind::MultiOgreAtomic, ChanKind::MultiOgreFullSync];
+static CFGS: [(u8, u8); 6] = [(4, 1), (4, 2), (4, 4), (8, 2), (8, 4), (2, 2)];
 static SMALL_CFGS: [(u8, u8); 4] = [(2, 1), (2, 2), (4, 1), (4, 2)];
 static ALL_CFGS: [(u8, u8); 7] = [(2, 1), (2, 2), (4, 1), (4, 2), (4, 4), (8, 2), (8, 4)];
 static NON_LOG: [ChanKind; 10] = [ChanKind::UniMoveAtomic, ChanKind::UniMoveFullSync, ChanKind::UniMoveCrossbeam, ChanKind::UniZcAtomic, ChanKind::UniZcFullSync,
@@ -494,6 +519,7 @@ pub struct C08Reserved;
 impl Property for C08Reserved {
     type Case = SeqCase;
     fn part(&self) -> &'static str { "reserved-slots-seq" }
+    fn decode(&self, u: &mut arbitrary::Unstructured<'_>) -> Option<SeqCase> { decode_seq(u, &SeqGen { kinds: &RESERVE_KINDS, configs: &ALL_CFGS, max_len: 120, origins: true, weights: [1, 1, 3, 3, 2, 2, 1, 6, 5, 3, 0, 1] }) }
     fn strategy(&self, _tier: Tier) -> BoxedStrategy<SeqCase> {
         //                                                                 cr dr sd rc ra rl rla rs sr cr ca ln
         prop_oneof![
@@ -542,8 +568,8 @@ pub struct C10Lifetimes;
 impl Property for C10Lifetimes {
     type Case = SeqCase;
     fn part(&self) -> &'static str { "listener-lifetimes-seq" }
+    fn decode(&self, u: &mut arbitrary::Unstructured<'_>) -> Option<SeqCase> { decode_seq(u, &SeqGen { kinds: &NON_LOG, configs: &CFGS, max_len: 300, origins: false, weights: [5, 4, 6, 3, 2, 1, 2, 0, 0, 0, 1, 2] }) }
     fn strategy(&self, _tier: Tier) -> BoxedStrategy<SeqCase> {
-        static CFGS: [(u8, u8); 6] = [(4, 1), (4, 2), (4, 4), (8, 2), (8, 4), (2, 2)];
         //                                                      cr dr sd rc ra rl rla rs sr cr ca ln
         prop_oneof![
             3 => seq_strategy(SeqGen { kinds: &NON_LOG, configs: &CFGS, max_len: 40, origins: false, weights: [5, 4, 6, 3, 2, 1, 2, 0, 0, 0, 1, 2] }),
@@ -573,6 +599,7 @@ pub struct C16Seq;
 impl Property for C16Seq {
     type Case = SeqCase;
     fn part(&self) -> &'static str { "rejected-send-seq" }
+    fn decode(&self, u: &mut arbitrary::Unstructured<'_>) -> Option<SeqCase> { decode_seq(u, &SeqGen { kinds: &REJECTING, configs: &ALL_CFGS, max_len: 80, origins: true, weights: [1, 0, 12, 3, 1, 2, 1, 1, 1, 0, 0, 4] }) }
     fn strategy(&self, _tier: Tier) -> BoxedStrategy<SeqCase> {
         //                                                         cr dr sd  rc ra rl rla rs sr cr ca ln
         seq_strategy(SeqGen { kinds: &REJECTING, configs: &ALL_CFGS, max_len: 80, origins: true, weights: [1, 0, 12, 3, 1, 2, 1, 1, 1, 0, 0, 4] })
@@ -599,6 +626,7 @@ pub struct C05Seq;
 impl Property for C05Seq {
     type Case = SeqCase;
     fn part(&self) -> &'static str { "payload-life-seq" }
+    fn decode(&self, u: &mut arbitrary::Unstructured<'_>) -> Option<SeqCase> { decode_seq(u, &SeqGen { kinds: &NON_LOG, configs: &ALL_CFGS, max_len: 50, origins: false, weights: [2, 1, 8, 5, 1, 4, 1, 1, 1, 0, 0, 0] }) }
     fn strategy(&self, _tier: Tier) -> BoxedStrategy<SeqCase> {
         //                                                       cr dr sd rc ra rl rla rs sr cr ca ln
         seq_strategy(SeqGen { kinds: &NON_LOG, configs: &ALL_CFGS, max_len: 50, origins: false, weights: [2, 1, 8, 5, 1, 4, 1, 1, 1, 0, 0, 0] })
@@ -641,6 +669,13 @@ pub struct C15Channels;
 impl Property for C15Channels {
     type Case = SeqCase;
     fn part(&self) -> &'static str { "wrap-diff-channels" }
+    fn decode(&self, u: &mut arbitrary::Unstructured<'_>) -> Option<SeqCase> {
+        let d = u.arbitrary::<u8>().unwrap_or(0) as u32;
+        let mut c = decode_seq(u, &SeqGen { kinds: &NON_LOG, configs: &ALL_CFGS, max_len: 40, origins: false, weights: [2, 1, 8, 4, 2, 2, 1, 3, 3, 2, 1, 3] })?;
+        let window = 3 * c.buffer as u32 + c.ops.len() as u32 + 1;
+        c.origin = u32::MAX - (d % window);
+        Some(c)
+    }
     fn strategy(&self, _tier: Tier) -> BoxedStrategy<SeqCase> {
         //                                                                   cr dr sd rc ra rl rla rs sr cr ca ln
         let g = SeqGen { kinds: &NON_LOG, configs: &ALL_CFGS, max_len: 40, origins: false, weights: [2, 1, 8, 4, 2, 2, 1, 3, 3, 2, 1, 3] };
